@@ -247,24 +247,50 @@ def x10_event_decoding(F, R):
         sig = b.get('sig', '')
         if 'VirtioVsockHdr' not in sig.split('->')[0] or 'VsockEvent' not in sig.split('->')[-1] or b.get('impl_adt', '').rsplit('::', 1)[-1] != 'VsockEvent':
             continue
-        sg = supergraph(F, b['id'])
         where = fn_site(F, b['id'])
+        n += 1
+        # two levels: with the raw operation code folded through the conversion into the operation enum; when that conversion
+        # is not foldable (e.g. a table lookup), with the conversion opaque and its result (Ok(variant k) / Err) as the leaf -
+        # the code -> variant table is then the decode-table rule's part (V/Q10 decode tables)
+        opfns = set(x['id'] for x in F.bodies.values() if re.search(r'-> core::result::Result<device::socket::protocol::\w*Op,', x.get('sig', '')))
+        bad = None
+        for level in ('raw', 'enum'):
+            bad = x10_fold(F, R, b, where, level, opfns)
+            if not (bad and bad.startswith('unfoldable')):
+                break
+        if bad and bad.startswith('unfoldable'):
+            R.abstain('X1', b['id'] + ':event-decoding', bad, where)
+            continue
+        R.check(bad is None, 'X1', '%s:event-decoding' % b['id'], where, 'operation codes 1..7 decode to the protocol\'s events', 'event decoding: %s' % bad)
+    R.count('event_decoders', n)
+
+
+def x10_fold(F, R, b, where, level, opfns):
+        sg = supergraph(F, b['id']) if level == 'raw' else supergraph(F, b['id'], opaque=lambda t, bb: bb['id'] in opfns, tag='x10e')
         try:
             paths = [p for p in PathEnum(sg).run() if not p.panicked]
         except PathLimit as e:
-            R.abstain('X1', b['id'] + ':event-decoding', str(e), where)
-            continue
-        n += 1
+            return 'unfoldable: %s' % e
         bad = None
         rows = 0
         for op in range(0, 9):
             for ln in (0, 5):
                 def leaf(t, op=op, ln=ln):
                     s_ = fmt(t)
+                    if level == 'enum' and t[0] == 'discr':
+                        inner = t[1]
+                        if inner[0] == 'call' and inner[2] in opfns:
+                            return 0 if op < 8 else 1
+                        if any(x[0] == 'call' and x[2] in opfns for x in subterms(inner)):
+                            if op >= 8:
+                                raise Unfoldable('payload of a failed conversion')
+                            return op
                     if t[0] in ('load0', 'load') and s_.endswith('.op)') or s_.endswith('.op'):
                         return op
                     if t[0] in ('load0', 'load') and (s_.endswith('.len)') or s_.endswith('.len')):
                         return ln
+                    if t[0] == 'call' and t[2].endswith('::get') and len(t[3]) == 1 and fmt(t[3][0]).endswith('.len)'):
+                        return ln      # little-endian wrapper's accessor on the length field
                     if 'log::' in s_:
                         return 0
                     raise Unfoldable(s_[:60])
@@ -298,11 +324,7 @@ def x10_event_decoding(F, R):
             if bad:
                 break
         R.tables += rows
-        if bad and bad.startswith('unfoldable'):
-            R.abstain('X1', b['id'] + ':event-decoding', bad, where)
-            continue
-        R.check(bad is None, 'X1', '%s:event-decoding' % b['id'], where, 'operation codes 1..7 decode to the protocol\'s events (%d rows)' % rows, 'event decoding: %s' % bad)
-    R.count('event_decoders', n)
+        return bad
 
 
 def x6_listen(F, R, listen_field):
